@@ -287,8 +287,8 @@ FINDINGS.append(
         id="KF-C08-folding-depends-on-output-mode",
         property="C08",
         also=[],
-        trigger="math_function_of_hash",
-        what="in verbose mode HASH(\"..\") is carried as the string 'HASH(\"..\")', which math.sin/cos/atan2/... cannot take, so sin(HASH(\"x\")) is folded to a literal only with compact on: the two outputs differ in instructions (and in register pressure: one mode may run out of registers), not only in tokens",
+        trigger=["math_function_of_hash", "str_as_operator_operand"],
+        what="in verbose mode HASH(\"..\") is carried as the string 'HASH(\"..\")', which math.sin/cos/atan2/... cannot take, so sin(HASH(\"x\")) is folded to a literal only with compact on, and STR(\"AB\") + 1 is an error in verbose mode but compiles in compact mode: the two outputs differ in instructions (and in register pressure: one mode may run out of registers), not only in tokens",
         signatures=dict(C08=[dict(monitor="compact-differential", event={"in": ["line-count-differs", "instruction-shape-differs", "only-one-mode-compiles"]})]),
         witness=dict(C08=dict(src=H + "db.Setting = atan2(HASH(\"O2\"), 1.5)\ndb.Mode = d0.Setting\n", options=dict(append_version=False), stream="witness")),
     )
